@@ -341,4 +341,17 @@ def kindOf (valid : Bytes → Bool) (dt : DT) (pv : PV) : Res (DT × KV) :=
   | .err e => .err e
   | .panic => .panic
 
+/-- shape of a `kindOf` result: the variant produced or the error class (T-table `KindTable`) -/
+inductive KShape where
+  | ok (variantCode : Nat)
+  | err (e : Err)
+  | panic
+  deriving DecidableEq, Repr
+
+def kindShape (valid : Bytes → Bool) (dt : DT) (pv : PV) : KShape :=
+  match kindOf valid dt pv with
+  | .ok (k, _) => .ok k.code
+  | .err e => .err e
+  | .panic => .panic
+
 end Srad.Codec
